@@ -507,3 +507,38 @@ def publish_ordered_across_threads(sc, sysm):
 def publishers_open(sc, sysm):
   n = len(sc.info["counts"])
   return lambda B, st: B.or_(*[B.not_(ended(sysm, B, st, t)) for t in range(n)])
+
+
+# ---- subscribers scenario (C07: several objects subscribe to one signal at once) ------------------------------------------------------------
+def _registered_count(sc, B, st, q):
+  """how often queue number q occurs in the list the registry holds for the signal"""
+  nl, nc = sc.info["lists"]
+  d = sc.info["dict"]
+  li = B.ite(B.and_(B.ult(B.const(0), st[d + ".size"]), B.eq(st[d + ".k0"], B.const(sc.info["signal"]))), st[d + ".v0"], B.const(0))
+  total = B.const(0)
+  for j in range(nl):
+    for c in range(nc):
+      hit = B.and_(B.eq(li, B.const(j + 1)), B.ult(B.const(c), st["registries.len%d" % j]), B.eq(st["registries.c%d_%d" % (j, c)], B.const(q)))
+      total = B.add(total, B.ite(hit, B.const(1), B.const(0)))
+  return total
+
+
+def subscription_lost(sc, sysm):
+  """every subscribe call has returned and some queue that subscribed is not registered for the signal exactly once; or somebody crashed"""
+  crash = any_crash(sc, sysm)
+  n = sc.info["n"]
+
+  def f(B, st):
+    wrong = [B.not_(B.eq(_registered_count(sc, B, st, q), B.const(1))) for q in sc.info["want_queue_numbers"]]
+    return B.or_(crash(B, st), B.and_(B.and_(*[ended(sysm, B, st, t) for t in range(n)]), B.or_(*wrong)))
+  return f
+
+
+def subscribers_done(sc, sysm):
+  n = sc.info["n"]
+  return lambda B, st: B.and_(*[ended(sysm, B, st, t) for t in range(n)])
+
+
+def subscribers_open(sc, sysm):
+  n = sc.info["n"]
+  return lambda B, st: B.or_(*[B.not_(ended(sysm, B, st, t)) for t in range(n)])
